@@ -22,7 +22,7 @@ type FieldUse struct {
 
 func (u FieldUse) IsWrite() bool {
 	switch u.Kind {
-	case "store", "mapupdate", "delete", "close":
+	case "store", "mapupdate", "delete", "close", "clear":
 		return true
 	}
 	return false
@@ -140,6 +140,8 @@ func classifyLoaded(fn *ssa.Function, f *types.Var, addr, base ssa.Value, ld ssa
 					u.Kind = "len"
 				case "close":
 					u.Kind = "close"
+				case "clear":
+					u.Kind = "clear"
 				}
 			} else {
 				u.Kind = "arg"
